@@ -202,7 +202,7 @@ pub fn run(tier: &str, out: &str) -> i32 {
     // context: the binding must treat exactly the UTF-8 bytes, whatever the code point's low byte looks like
     let c4 = CgrComputer::new("-".into(), "-".into(), 4);
     let o1 = OligoComputer::new("-".into(), "-".into(), 1);
-    let mut cps: Vec<u32> = (0x80u32..=0xFFFF).filter(|c| !(0xD800..=0xDFFF).contains(c)).collect();
+    let mut cps: Vec<u32> = (0u32..=0xFFFF).filter(|c| !(0xD800..=0xDFFF).contains(c)).collect();
     let stride = if thorough { 17 } else { 257 };
     cps.extend((0x10000u32..=0x10FFFF).step_by(stride));
     for cp in cps {
@@ -223,6 +223,17 @@ pub fn run(tier: &str, out: &str) -> i32 {
             Err(_) => writeln!(w, "G {} 4 ERR", hex(single.as_bytes())).unwrap(),
         }
         if cp % 16 == 1 || cp < 0x800 {
+            // the code point first and last as well (and twice in a row at the start)
+            for t in [[ch, 'A', 'c'].iter().collect::<String>(), ['A', 'c', ch].iter().collect(), [ch, ch, 'G'].iter().collect()] {
+                let tb = t.as_bytes();
+                kmer_line(&mut w, tb, 1);
+                match c4.verif_vectorise_one(tb) {
+                    Ok(p) => writeln!(w, "G {} 4 {}", hex(tb), p.iter().map(|q| format!("{}:{}", bits(q.0), bits(q.1))).collect::<Vec<_>>().join(",")).unwrap(),
+                    Err(_) => writeln!(w, "G {} 4 ERR", hex(tb)).unwrap(),
+                }
+                let items: Vec<String> = MinimiserGenerator::new(tb, 2, 1).map(|(v, a, c)| format!("{}:{}:{}", v, a, c)).collect();
+                writeln!(w, "M {} 2 1 {}", hex(tb), items.join(",")).unwrap();
+            }
             let v: Vec<String> = o1.verif_vectorise_one(b).iter().map(|x| bits(*x)).collect();
             writeln!(w, "O {} 1 1 {}", hex(b), v.join(",")).unwrap();
             let items: Vec<String> = MinimiserGenerator::new(b, 1, 1).map(|(v, a, c)| format!("{}:{}:{}", v, a, c)).collect();
